@@ -27,6 +27,7 @@ macro_rules! dispatch {
             "C17" => fw::$f::<props::c17::C17>($($arg),*),
             "C18" => fw::$f::<props::c18::C18>($($arg),*),
             "C19" => fw::$f::<props::c19::C19>($($arg),*),
+            "C20" => fw::$f::<props::c20::C20>($($arg),*),
             other => {
                 eprintln!("unknown property {other}");
                 2
